@@ -133,6 +133,10 @@ func (p *parser) parseMessageText() (dataItem ast.ItemNode, ok bool) {
 	}
 	p.pos += 1
 
+	if p.pos+lengthBytesCount > len(p.input) {
+		// length bytes are missing
+		return ast.NewEmptyItemNode(), false
+	}
 	lengthBytes := p.input[p.pos : p.pos+lengthBytesCount]
 	var length int
 	for i, b := range lengthBytes {
@@ -140,6 +144,12 @@ func (p *parser) parseMessageText() (dataItem ast.ItemNode, ok bool) {
 		length += int(b) << shift
 	}
 	p.pos += lengthBytesCount
+
+	if length > len(p.input)-p.pos {
+		// The declared length (bytes, or number of child items for a list, each
+		// of which takes at least one byte) exceeds the remaining input.
+		return ast.NewEmptyItemNode(), false
+	}
 
 	switch formatCode {
 	case formatCodeList:
